@@ -68,6 +68,7 @@ class Usim(object):
         self.path = os.path.join(BUILD, flavour, "usim")
         self.proc = None
         self.stderr_path = stderr_path
+        self.own_stderr = False
         self.extra_env = extra_env or {}
         self.starts = 0
 
@@ -77,6 +78,7 @@ class Usim(object):
             d = os.path.join(BUILD, "scratch")
             os.makedirs(d, exist_ok=True)
             self.stderr_path = os.path.join(d, "stderr-%d-%d.log" % (os.getpid(), id(self) & 0xffff))
+            self.own_stderr = True
         if self.stderr_path and self.flavour == "san":
             try:
                 open(self.stderr_path, "wb").close()
@@ -107,12 +109,27 @@ class Usim(object):
                 self.proc.kill()
                 self.proc.wait()
             self.proc = None
+        self._drop_stderr()
+
+    def _drop_stderr(self):
+        if self.own_stderr and self.stderr_path:
+            try:
+                os.unlink(self.stderr_path)
+            except OSError:
+                pass
+
+    def __del__(self):
+        try:
+            self._drop_stderr()
+        except Exception:
+            pass
 
     def kill(self):
         if self.proc:
             self.proc.kill()
             self.proc.wait()
             self.proc = None
+        self._drop_stderr()
 
     def run(self, plan):
         if self.proc is None or self.proc.poll() is not None:
